@@ -74,6 +74,12 @@ TScn ==
               /\ Explain(ExactOK(o), <<l, "Scn", "ExactOK", TRUE>>)
          [] k = "iacc" ->
               Explain(AcceptedOK(o) /\ o.wcbn = 0, <<l, "Scn", "interpAccept", 0>>)
+         [] k = "rdacc" ->
+              Explain(AcceptedOK(o) /\ o.wcbn = 0,
+                      <<l, "Scn", "lastDeclarationCounts", "accepted">>)
+         [] k = "rdrej" ->
+              Explain(RejectedEDOM(o),
+                      <<l, "Scn", "lastDeclarationCounts", "EDOM">>)
          [] k = "irej" ->
               Explain(RejectedEDOM(o), <<l, "Scn", "interpReject", "EDOM">>)
          [] k = "few" ->
